@@ -491,6 +491,9 @@ class RunLengthArray(NPSIndexable, np.lib.mixins.NDArrayOperatorsMixin):
     def _get_position(self, idx):
         if np.any(np.asanyarray(idx) < -len(self)) or np.any(np.asanyarray(idx) >= len(self)):
             raise IndexError(f"index {idx} is out of bounds for RunLengthArray of size {len(self)}")
+        idx = np.asanyarray(idx)
+        if idx.dtype.kind in "iu":
+            idx = idx.astype(np.int64)  # len(self)+idx must not overflow a narrow index dtype
         idx = np.where(idx < 0, len(self)+idx, idx)
         return self._values[np.searchsorted(self._events, idx, side="right")-1]
 
